@@ -125,6 +125,8 @@ func build(c *Case) (*sut, error) {
 				return true, nil, oerrors.New(403, "rejected-by-%s", name)
 			case "r418":
 				return true, nil, oerrors.New(418, "rejected-by-%s", name)
+			case "rp403": // a rejection that still names the identified user (e.g. insufficient scope)
+				return true, principalOf(name), oerrors.New(403, "rejected-by-%s", name)
 			default:
 				return false, nil, nil
 			}
@@ -255,6 +257,8 @@ func rejectCode(o string) int {
 		return 403
 	case "r418":
 		return 418
+	case "rp403":
+		return 403
 	}
 	return 0
 }
@@ -699,7 +703,7 @@ func grant(r *rand.Rand) string {
 }
 
 var outcomes = []string{"n", "a", "z", "r"}
-var rejectKinds = []string{"r401", "r403", "r418"}
+var rejectKinds = []string{"r401", "r403", "r418", "rp403"}
 
 func genCase(r *rand.Rand, builds int, maxReq int) *Case {
 	d := gen.Desc{BasePath: "/", SecDefs: map[string]gen.SecDef{}}
@@ -760,7 +764,7 @@ func genCase(r *rand.Rand, builds int, maxReq int) *Case {
 					k := outcomes[x%4]
 					x /= 4
 					if k == "r" {
-						k = rejectKinds[r.Intn(3)]
+						k = rejectKinds[r.Intn(len(rejectKinds))]
 					}
 					if k == "a" && r.Intn(3) == 0 {
 						k = grant(r)
@@ -776,7 +780,7 @@ func genCase(r *rand.Rand, builds int, maxReq int) *Case {
 				for _, s := range us {
 					k := outcomes[r.Intn(4)]
 					if k == "r" {
-						k = rejectKinds[r.Intn(3)]
+						k = rejectKinds[r.Intn(len(rejectKinds))]
 					}
 					if k == "a" && r.Intn(3) == 0 {
 						k = grant(r)
